@@ -29,6 +29,36 @@ fn main() {
     rayon::ThreadPoolBuilder::new().num_threads(threads).stack_size(16 << 20).build_global().unwrap();
     match args[1].as_str() {
         "--replay" => std::process::exit(fw::replay(&args[2])),
+        "--probe-degenerate" => {
+            // experiment: which operations terminate on degenerate generators (run single-threaded; prints as it goes)
+            use crate::adapter::Blob;
+            let which: usize = args.get(2).and_then(|x| x.parse().ok()).unwrap_or(0);
+            let period: usize = args.get(3).and_then(|x| x.parse().ok()).unwrap_or(0);
+            let api = props::common::all_apis()[which];
+            let mk = |n: &str| tape::Tape::degenerate(&format!("deg/{}", n), period);
+            println!("suite {} period {}", api.name(), period);
+            let setup = api.setup(&mut mk("a"));
+            println!("setup {:?}", setup.as_ref().map(|s| s.len()));
+            let setup = setup.unwrap();
+            let r = api.reg_start(&mut mk("b"), b"pw");
+            println!("reg_start {:?}", r.as_ref().map(|s| s.0.len()));
+            let (req, creg) = r.unwrap();
+            let resp = api.sreg_start(&Blob::n(&setup), &Blob::n(&req), b"c").unwrap();
+            let f = api.reg_finish(&mut mk("c"), &Blob::n(&creg), b"pw", &Blob::n(&resp), None, None, None);
+            println!("reg_finish {:?}", f.as_ref().map(|s| s.0.len()));
+            let (up, _, _) = f.unwrap();
+            let l = api.login_start(&mut mk("d"), b"pw");
+            println!("login_start {:?}", l.as_ref().map(|s| s.0.len()));
+            let (ke1, cl) = l.unwrap();
+            let s2 = api.slogin_start(&mut mk("e"), &Blob::n(&setup), Some(&Blob::n(&up)), &Blob::n(&ke1), b"c", None, None, None);
+            println!("slogin_start {:?}", s2.as_ref().map(|s| s.0.len()));
+            let (ke2, _sl) = s2.unwrap();
+            let s3 = api.slogin_start(&mut mk("e"), &Blob::n(&setup), None, &Blob::n(&ke1), b"c", None, None, None);
+            println!("slogin_start(no record) {:?}", s3.as_ref().map(|s| s.0.len()));
+            let fin = api.login_finish(&Blob::n(&cl), b"pw", &Blob::n(&ke2), None, None, None, None);
+            println!("login_finish {:?}", fin.as_ref().map(|s| s.0.len()));
+            std::process::exit(0);
+        }
         "--selftest" => {
             let (n, c, f) = vectors::selftest();
             println!("vectors={} compared={} mismatches={:?}", n, c, f);
@@ -53,7 +83,9 @@ fn main() {
         let limit: u64 = std::env::var("VERIF_HANG_MS").ok().and_then(|s| s.parse().ok()).unwrap_or(150_000);
         std::thread::spawn(move || loop {
             std::thread::sleep(std::time::Duration::from_millis(1000));
-            if let Some((op, case, secs)) = api::hung_call(limit) {
+            let ov = api::HANG_LIMIT_OVERRIDE_MS.load(std::sync::atomic::Ordering::Relaxed);
+            let lim = if ov > 0 { ov } else { limit };
+            if let Some((op, case, secs)) = api::hung_call(lim) {
                 let verif = fw::verif_dir();
                 let _ = std::fs::create_dir_all(format!("{}/replays", verif));
                 let path = format!("{}/replays/{}-hang-{}.json", verif, prop, op);
